@@ -273,6 +273,7 @@ def main(argv=None):
     for modname, i, name, inst, ob in refuted:
         groups.setdefault((modname, i, name, json.dumps(inst, sort_keys=True), ob['name']), []).append(ob)
     reported = 0
+    known_excluded = 0
     for (modname, i, name, inst_s, obname), obs in sorted(groups.items()):
         inst = json.loads(inst_s)
         ke = next((e for e in known if matches(e, prop, name, inst, obname)), None)
@@ -280,6 +281,9 @@ def main(argv=None):
             if ke['id'] not in seen_known:
                 seen_known.add(ke['id'])
                 lines.append(f"KNOWN-FINDING: property={prop} {ke['text']}")
+            # obligations covered by a recorded finding are reported through the KNOWN-FINDING line, not counted as proof obligations
+            n_ob -= sum(1 for o in obs if o.get('counted', True))
+            known_excluded += sum(1 for o in obs if o.get('counted', True))
             continue
         viol += 1
         if reported >= int(os.environ.get('VERIF_MAXREPORT', '8')):
